@@ -297,7 +297,7 @@ func (a *NXActionConnTrack) UnmarshalBinary(data []byte) error {
 	a.NXActionHeader = new(NXActionHeader)
 	err := a.NXActionHeader.UnmarshalBinary(data[n:])
 	n += int(a.NXActionHeader.Len())
-	if len(data) < int(a.Len()) {
+	if a.Length < a.Len() || len(data) < int(a.Length) {
 		return errors.New("the []byte is too short to unmarshal a full NXActionConnTrack message")
 	}
 	a.Flags = binary.BigEndian.Uint16(data[n:])
